@@ -58,6 +58,24 @@ NEEDS = {
  "C19-w3-1": ("cleanupCharClassMatcher rebuilds UnicodeClasses by ranging over a set when there is a duplicate", "-optimize-grammar, a merged class with a duplicated \\p class and at least two distinct classes"),
  "C19-w3-2": ("removing a dead rule releases only one (map order) of the rules it referenced", "-optimize-grammar, a dead rule referencing at least two rules one of which is used by nothing else"),
  "C19-w3-3": ("the re-entry guard of Rule.NullableVisit returns the Nullable flag left by a previous build", "the same AST built more than once in one process, -support-left-recursion, a directly left-recursive rule nullable through a later alternative"),
+ "C05-w4-1": ("parseSeqExpr returns early, without restoreState, when the sequence did not advance", "a state block before the sequence consumes anything, the next element failing, the sequence under * + or ? (not a choice alternative)"),
+ "C05-w4-2": ("a successful sequence puts its snapshot back into the pool without clearing it", "a key created by a state block, a sequence succeeding while it exists, the enclosing expression failing, a later failing expression restoring the polluted snapshot"),
+ "C05-w4-3": ("the builder marks which sequences need a snapshot and does not see state changes reached through a throw", "a state change made inside a recovery expression (doc.go makes the grammar author responsible for state during recovery operations: outside what C05 demands; generated recovery expressions contain no state blocks)"),
+ "C11-w4-1": ("& and ! lookahead roll the error list back", "a code block returning an error while it is reached only inside the operand of & or !"),
+ "C11-w4-2": ("a code predicate that returns an error never matches", "&{ return true, err } or !{ return false, err } used as a warning"),
+ "C11-w4-3": ("ParseReader has a function-level recover", "Recover(false), ParseReader/ParseFile, a block that panics"),
+ "C13-w4-1": ("writeFunc strips the line breaks of a code block under one length check", "a code block written as { newline }"),
+ "C13-w4-2": ("cleanupCharClassMatcher dedupes Ranges rune by rune", "-optimize-grammar and a merged class with a repeated range endpoint, e.g. [a-z] / [0-9a-f]"),
+ "C13-w4-3": ("newParser allocates the state map only when the grammar has state blocks, InitState keeps the old guard", "non-optimized parser, grammar without state blocks, caller passes InitState: panic in generated parsers (the tool itself still exits 0; reported by C11 as twin-panicked)"),
+ "C16-w4-1": ("budget exhaustion becomes an ordinary failure recorded once, which the left-recursion leader rolls back", "-support-left-recursion, the budget running out inside a seed or growth attempt"),
+ "C16-w4-2": ("parseRuleRefExpr chases forwarding rules in an uncounted loop", "a cycle of pure forwarding rules (accepted only with -support-left-recursion) reached by the input"),
+ "C16-w4-3": ("the MaxExpressions option swaps its captured value with the parser's", "one Option value applied to a second parser"),
+ "C18-w4-1": ("Discard puts the map into the pool before clearing it", "state blocks and two concurrent parses, one taking the map between Put and clear"),
+ "C18-w4-2": ("parsers are pooled and keep their stacks", "a call that panics inside a recovery expression or rule, then another call getting that parser"),
+ "C18-w4-3": ("the Debug trace goes through one shared bufio.Writer", "Debug(true) in two overlapping calls, non-optimized parser"),
+ "C19-w4-1": ("reduceGraph reduces the first-graph in place", "-support-left-recursion, a mutual left-recursion group and an independent directly left-recursive rule"),
+ "C19-w4-2": ("terminals share one package-level empty InitialNames set which RecoveryExpr extends in place", "a recovery expression whose guarded expression is a bare terminal, another terminal-led rule, the unlucky map order"),
+ "C19-w4-3": ("-o file opened without O_TRUNC", "a longer file already at the -o path"),
 }
 
 results = {}
